@@ -596,3 +596,27 @@ def calls_to(f, *names, shallow=True):
                 if xd in names:
                     out.append(c)
     return out
+
+
+def reachable_assuming(f, target, atom, start=None):
+    """Can control reach CFG node `target` on a path along which every test agrees with the assumption?  `atom(expr)` gives True / False /
+    None for the leaves of the tests (and/or/not are interpreted, see `truth`); a test whose value is determined lets only that edge
+    through.  Exception edges are not followed.  A False answer means: under the assumption the node is never executed."""
+    g = f.cfg
+    starts = [start or g.entry]
+    seen = set(starts)
+    work = list(starts)
+    while work:
+        n = work.pop()
+        if n is target:
+            return True
+        tv = truth(n.ast, atom) if n.kind == 'test' else None
+        for (m, lab) in n.succ:
+            if lab == 'exc':
+                continue
+            if n.kind == 'test' and tv is not None and lab in ('true', 'false') and (lab == 'true') != tv:
+                continue
+            if m not in seen:
+                seen.add(m)
+                work.append(m)
+    return target in seen
